@@ -158,7 +158,7 @@ class Prop:
     # ------------------------------------------------------------------ generation
     def generate(self, rng, tier):
         quick = tier == "quick"
-        Q = 1 if quick else 6
+        Q = 3 if quick else 20
         cases = []
 
         def shp(N, hi=3):
@@ -296,6 +296,12 @@ class Prop:
             mk("pad", [t], shape=shape, dim=dims, fill=fill, cls=cls,
                fill_kind="zero" if fill == 0 else "nonzero", mkind=mkind((t["modes"][dl[0] % N]["kind"],
                                                                             t["modes"][dl[0] % N]["U"] is not None)))
+            if cls == "pad-nonzero-fill":
+                # the same call judged only on the result's shape and on the original block (both hold on the current
+                # tree although the padded region is wrong, D8): keeps the non-zero-fill path under watch
+                c = json.loads(json.dumps(cases[-1]))
+                c["judge"] = "block"; c["tags"]["cls"] = "pad-nonzero-fill-block-only"
+                cases.append(c)
 
         for N, pos, kinds in mode_lattice():
             for fill in (0, 0, 2, -1.5):
@@ -610,6 +616,9 @@ class Prop:
             if list(r["shape"]) != list(e["shape"]):
                 return False, "output %d has shape %s, expected %s" % (i, r["shape"], e["shape"])
             a = np.array(r["dense"], dtype=np.float64); b = np.array(e["dense"], dtype=np.float64)
+            if case.get("judge") == "block":
+                blk = tuple(slice(0, n) for n in tshape(case["ts"][0]))
+                a = a.reshape(e["shape"])[blk].reshape(-1); b = b.reshape(e["shape"])[blk].reshape(-1)
             if a.size:
                 if not np.all(np.isfinite(a)):
                     return False, "output %d has non-finite entries" % i
